@@ -139,6 +139,13 @@ def monitor(b, events, stale, before, outspec, rr):
                 pk = first.get(ev)
                 if not (pk is not None and pk < rz):
                     v.append(f"out-of-date dependent source {z} was read (event {rz}) before {ev} (its predecessor {p}; at {pk})")
+    # ---- an out-of-date dependent source is refreshed by the run that finds it out of date - whatever the requested output
+    if rr.exc is None and not any(e[0] == "cut" for e in events):
+        for nd in b.spec["nodes"]:
+            z = nd.get("writes")
+            if nd["kind"] == "producer" and z in stale and ("write", z) not in first:
+                v.append(f"dependent source {z} was out of date (downstream of what this run rebuilt or found changed) but its producer "
+                         f"{nd['id']} did not run: the store behind it still holds content derived from the old values")
     # ---- values: consumers and the caller receive what `read` returned
 
     def expect_from(u):
